@@ -259,7 +259,19 @@ pub fn judge_path(case: &Case, oc: &OracleCell, path: &Path, trace: &Trace, ci: 
         }
     }
 
-    // (f) interpolated waypoints only when requested
+    // (f) interpolated waypoints only when requested: whatever they are flagged as. Without RRT
+    // gap closing, LAND is followed by exactly one waypoint per stroke pose and PARK.
+    if !case.include_lin && strict {
+        let after = path.len() - 1 - li;
+        if after > steps.len() + 1 {
+            let extra = path.iter().enumerate().skip(li + 1).find(|(_, w)| w.1 & (F_TRACE | F_PARK) == 0).map(|(i, w)| format!("e.g. waypoint #{i} with flags {:#b}", w.1)).unwrap_or_default();
+            push(
+                "f:extra-waypoints-not-requested",
+                "lin-interp-present/unflagged",
+                format!("include_linear_interpolation is false, the stroke has {} poses, yet {} waypoints follow LAND ({extra})", steps.len(), after),
+            );
+        }
+    }
     if !case.include_lin {
         if let Some((i, _)) = path.iter().enumerate().find(|(_, w)| w.1 & F_LIN_INTERP != 0) {
             push(
